@@ -49,9 +49,9 @@ def wf(data: bytes) -> bool:
             tok = True
             i += 1
         elif b == 93:
-            if not stack or stack[-1] != 91:
-                return False
-            stack.pop()
+            if stack and stack[-1] == 91:
+                stack.pop()
+            # a `]` that closes nothing is an ordinary character (tags and astrings may contain it)
             tok = True
             i += 1
         elif b == 34:
@@ -87,10 +87,10 @@ def wf(data: bytes) -> bool:
             tok = True
         elif b == 126:
             if i + 1 < n and data[i + 1] == 123:
-                tok = False
-                i += 1
+                tok = False             # literal8 prefix
             else:
-                return False
+                tok = True              # an ordinary atom character
+            i += 1
         else:
             if not _plain(b):
                 return False
@@ -203,9 +203,7 @@ def _parse_line(data, i):
                 if c == 91:
                     depth += 1
                 elif c == 93:
-                    depth -= 1
-                    if depth < 0:
-                        raise Malformed('unbalanced ]')
+                    depth = max(0, depth - 1)
                 elif c == 34 and depth == 0:
                     break
                 j += 1
